@@ -143,7 +143,9 @@ def quadratic_spline(
 
     if inverse:
         c_ = c - inputs
-        alpha = (-b + torch.sqrt(b.pow(2) - 4 * a * c_)) / (2 * a)
+        # Numerically stable form of (-b + sqrt(b^2 - 4ac)) / (2a), also valid for a == 0
+        # (equal heights on both sides of a bin, e.g. all-zero parameters).
+        alpha = (-2 * c_) / (b + torch.sqrt(b.pow(2) - 4 * a * c_))
         outputs = alpha * input_bin_widths + input_bin_locations
         outputs = torch.clamp(outputs, 0, 1)
         logabsdet = -torch.log(
